@@ -17,15 +17,16 @@ Definition Inv (s : st) : Prop :=
   (ds_done s = true -> cb s = CbDone) /\
   dereg s = cp_done s /\
   (cb s = CbAdded -> cp_done s = false) /\
-  length (resumed s) = (if (rc s =? 0)%Z then 1%nat else 0%nat).
+  length (resumed s) = (if (rc s =? 0)%Z then 1%nat else 0%nat) /\
+  chosen s = (if cp_done s then Some (kind s) else None).
 
-Lemma inv_init : Inv init.
-Proof. unfold Inv, init; simpl. repeat split; auto; try discriminate. Qed.
+Lemma inv_init : forall k, Inv (init k).
+Proof. intros k. unfold Inv, init; simpl. repeat split; auto; try discriminate. Qed.
 
 Lemma inv_step : forall s t s' evs, Inv s -> step t s = Some (s', evs) -> Inv s'.
 Proof.
-  intros s t s' evs (I1 & I2 & I3 & I4 & I5 & I6) H.
-  destruct s as [r c d ds cp res]; simpl in *.
+  intros s t s' evs (I1 & I2 & I3 & I4 & I5 & I6 & I7) H.
+  destruct s as [r c d ds cp res kd ch]; simpl in *.
   assert (Hr : r = 0 \/ r = 1 \/ r = 2 \/ r = 3) by (destruct c, ds, cp; simpl in *; try (specialize (I3 eq_refl); discriminate); lia).
   destruct t as [|[|[|t]]]; simpl in H; try discriminate;
     destruct c, d, ds, cp; simpl in *; try discriminate;
@@ -36,14 +37,14 @@ Proof.
     repeat split; auto; try discriminate; try lia; try congruence.
 Qed.
 
-Lemma inv_run : forall sched, Inv (fst (run step sched (init, []))).
+Lemma inv_run : forall k sched, Inv (fst (run step sched (init k, []))).
 Proof. intros. apply (run_invariant_state _ _ _ step Inv inv_step). simpl. apply inv_init. Qed.
 
-Theorem exactly_one_resumer : forall sched : list nat,
-  let s := fst (run step sched (init, [])) in
+Theorem exactly_one_resumer : forall (k : nat) (sched : list nat),
+  let s := fst (run step sched (init k, [])) in
   (length (resumed s) <= 1)%nat /\ (quiescent s = true -> length (resumed s) = 1%nat).
 Proof.
-  intros. destruct (inv_run sched) as (I1 & I2 & I3 & I4 & I5 & I6). fold s in I1, I2, I3, I4, I5, I6.
+  intros. destruct (inv_run k sched) as (I1 & I2 & I3 & I4 & I5 & I6 & _). fold s in I1, I2, I3, I4, I5, I6.
   split.
   - rewrite I6. destruct (rc s =? 0); lia.
   - unfold quiescent. intros Hq. apply andb_true_iff in Hq. destruct Hq as [Hcp Hq].
@@ -55,24 +56,24 @@ Proof.
     + exfalso. apply I2. reflexivity.
 Qed.
 
-Theorem not_resumed_early : forall sched : list nat,
-  let s := fst (run step sched (init, [])) in
+Theorem not_resumed_early : forall (k : nat) (sched : list nat),
+  let s := fst (run step sched (init k, [])) in
   resumed s <> [] -> cp_done s = true /\ (cb s = CbIdle \/ (cb s = CbDone /\ ds_done s = true)).
 Proof.
-  intros. destruct (inv_run sched) as (I1 & I2 & I3 & I4 & I5 & I6). fold s in I1, I2, I3, I4, I5, I6.
+  intros. destruct (inv_run k sched) as (I1 & I2 & I3 & I4 & I5 & I6 & _). fold s in I1, I2, I3, I4, I5, I6.
   assert (Hrc : rc s = 0).
   { destruct (rc s =? 0) eqn:E; [apply Z.eqb_eq in E; auto|]. destruct (resumed s); [congruence|discriminate]. }
   destruct (cp_done s) eqn:Ecp, (ds_done s) eqn:Eds, (cb s) eqn:Ecb; simpl in *; try lia;
     try (specialize (I3 eq_refl); discriminate); try (exfalso; apply I2; reflexivity); auto.
 Qed.
 
-Theorem bail_unreachable : forall sched : list nat, cb (fst (run step sched (init, []))) <> CbBail.
-Proof. intros. destruct (inv_run sched) as (_ & I2 & _). exact I2. Qed.
+Theorem bail_unreachable : forall (k : nat) (sched : list nat), cb (fst (run step sched (init k, []))) <> CbBail.
+Proof. intros. destruct (inv_run k sched) as (_ & I2 & _). exact I2. Qed.
 
 (* the trace shows the resumptions *)
-Definition is_root (e : ev) : bool := match e with ERoot => true | _ => false end.
-Theorem trace_roots : forall sched : list nat,
-  let c := run step sched (init, []) in
+Definition is_root (e : ev) : bool := match e with ERoot _ => true | _ => false end.
+Theorem trace_roots : forall (k : nat) (sched : list nat),
+  let c := run step sched (init k, []) in
   length (filter is_root (snd c)) = length (resumed (fst c)).
 Proof.
   intros. subst c.
@@ -86,4 +87,53 @@ Proof.
     inversion Hs; subst; simpl. destruct (rc (fst c) =? 1); simpl; lia.
   - destruct (cp_done (fst c)); [discriminate|].
     destruct (cb (fst c)); try discriminate; inversion Hs; subst; simpl; destruct (rc (fst c) =? 1); simpl; lia.
+Qed.
+
+(* what is resumed is the continuation for the body's own result: the deferred stop request, when it is the last to
+   finish, resumes whoToContinue_ as complete_and_choose_continuation left it - never a done continuation of its own *)
+Definition root_ok (k : nat) (e : ev) : Prop := match e with ERoot x => x = Some k | _ => True end.
+Lemma step_kind : forall t s s' evs, step t s = Some (s', evs) -> kind s' = kind s.
+Proof.
+  intros t s s' evs Hs.
+  destruct t as [|[|[|t]]]; simpl in Hs; try discriminate.
+  - destruct (cb s); try discriminate.
+    + destruct (dereg s); [discriminate|]. inversion Hs; reflexivity.
+    + inversion Hs; reflexivity.
+  - destruct (cb s); try discriminate. destruct (ds_done s); [discriminate|]. inversion Hs; reflexivity.
+  - destruct (cp_done s); [discriminate|]. destruct (cb s); try discriminate; inversion Hs; reflexivity.
+Qed.
+
+Lemma kind_const : forall k sched, kind (fst (run step sched (init k, []))) = k.
+Proof.
+  intros. apply (run_invariant_state _ _ _ step (fun s => kind s = k)); [|reflexivity].
+  intros s t s' evs Hk Hs. rewrite (step_kind _ _ _ _ Hs). exact Hk.
+Qed.
+
+Theorem resumes_own_result : forall (k : nat) (sched : list nat),
+  Forall (root_ok k) (snd (run step sched (init k, []))).
+Proof.
+  intros k sched.
+  apply (run_invariant _ _ _ step (fun c => (Inv (fst c) /\ kind (fst c) = k) /\ Forall (root_ok k) (snd c)));
+    [|split; [split; [apply inv_init|reflexivity]|constructor]].
+  intros c t s' evs [[Hi Hk] Hf] Hs. simpl.
+  assert (Hi' : Inv s') by (eapply inv_step; eauto).
+  assert (Hk' : kind s' = k) by (rewrite (step_kind _ _ _ _ Hs); exact Hk).
+  split; [split; assumption|].
+  apply Forall_app. split; [exact Hf|].
+  destruct Hi as (I1 & I2 & I3 & I4 & I5 & I6 & I7).
+  clear Hi' Hk'.
+  destruct t as [|[|[|t]]]; simpl in Hs; try discriminate.
+  - destruct (cb (fst c)); try discriminate.
+    + destruct (dereg (fst c)); [discriminate|]. inversion Hs. repeat constructor.
+    + inversion Hs. repeat constructor.
+  - destruct (cb (fst c)) eqn:Ecb; try discriminate. destruct (ds_done (fst c)) eqn:Eds; [discriminate|].
+    inversion Hs. constructor; [exact I|].
+    destruct (rc (fst c) =? 1) eqn:Erc; [|constructor].
+    constructor; [|constructor]. simpl.
+    apply Z.eqb_eq in Erc. simpl in I1.
+    destruct (cp_done (fst c)) eqn:Ecp; simpl in I1; [|lia].
+    rewrite I7. rewrite Hk. reflexivity.
+  - destruct (cp_done (fst c)); [discriminate|].
+    destruct (cb (fst c)); try discriminate; inversion Hs; (constructor; [exact I|]);
+      destruct (rc (fst c) =? 1); repeat constructor; simpl; rewrite Hk; reflexivity.
 Qed.
